@@ -676,7 +676,7 @@ def do_copy(kind, o, route):
 
 class C17(World):
     ID = "C17"
-    RUNS = {"quick": 40000, "thorough": 1500000}
+    RUNS = {"quick": 60000, "thorough": 1500000}
     WALL = {"quick": 110.0, "thorough": 1700.0}
     BLOCK = 40
     RULE = (
